@@ -10,6 +10,8 @@ Inductive stmt (expr : Type) :=
 | SBlock (l : list (stmt expr))
 | SIf (e : expr) (s1 : stmt expr) (s2 : option (stmt expr))
 | SWhile (e : expr) (body : list (stmt expr))
+| SDoWhile (body : list (stmt expr)) (e : expr)
+| SFor (init test upd : option expr) (body : list (stmt expr))
 | SBreak (l : label)
 | SContinue (l : label)
 | SReturn (e : expr)
@@ -17,6 +19,7 @@ Inductive stmt (expr : Type) :=
 | SThrow (e : expr)
 | STry (b : list (stmt expr)) (c : option (list (stmt expr))) (f : option (list (stmt expr))).
 Arguments SExpr {expr}. Arguments SBlock {expr}. Arguments SIf {expr}. Arguments SWhile {expr}.
+Arguments SDoWhile {expr}. Arguments SFor {expr}.
 Arguments SBreak {expr}. Arguments SContinue {expr}. Arguments SReturn {expr}.
 Arguments SLabelled {expr}. Arguments SThrow {expr}. Arguments STry {expr}.
 
@@ -88,6 +91,71 @@ Fixpoint owhile (n : nat) (labels : list label) (e : expr) (body : list stmt)
     end
   end.
 
+(* cmplEvaluateNodeDoWhileStatement: body, then the test (also after a consumed continue) *)
+Fixpoint odowhile (n : nat) (labels : list label) (e : expr) (body : list stmt)
+         (s0 : st) (L : list label) (acc : oval) : st * list label * ores :=
+  match n with
+  | O => (s0, L, OFuel)
+  | S n =>
+    match olist s0 L OEmpty body with
+    | (s1, L1, ONorm o) =>
+      let again (acc' : oval) :=
+        match eval s1 e with
+        | (s', inr x) => (s', L1, OExn x)
+        | (s', inl v) => if truthy v then odowhile n labels e body s' L1 acc' else (s', L1, ONorm acc')
+        end in
+      match o with
+      | OBrk t => if mem t labels then (s1, L1, ONorm acc) else (s1, L1, ONorm o)
+      | OCont t => if mem t labels then again acc else (s1, L1, ONorm o)
+      | ORet _ => (s1, L1, ONorm o)
+      | OEmpty => again acc
+      | OVal _ => again o
+      end
+    | r => r
+    end
+  end.
+
+(* cmplEvaluateNodeForStatement after the initializer: test, [extra poll when the body is empty],
+   body, update (also after a consumed continue) *)
+Fixpoint ofor (n : nat) (labels : list label) (test upd : option expr) (body : list stmt)
+         (s0 : st) (L : list label) (acc : oval) : st * list label * ores :=
+  match n with
+  | O => (s0, L, OFuel)
+  | S n =>
+    let run_body (s' : st) :=
+      let go (s'' : st) :=
+        match olist s'' L OEmpty body with
+        | (s1, L1, ONorm o) =>
+          let again (acc' : oval) :=
+            match upd with
+            | Some u => match eval s1 u with
+                        | (s2, inl _) => ofor n labels test upd body s2 L1 acc'
+                        | (s2, inr x) => (s2, L1, OExn x)
+                        end
+            | None => ofor n labels test upd body s1 L1 acc'
+            end in
+          match o with
+          | OBrk t => if mem t labels then (s1, L1, ONorm acc) else (s1, L1, ONorm o)
+          | OCont t => if mem t labels then again acc else (s1, L1, ONorm o)
+          | ORet _ => (s1, L1, ONorm o)
+          | OEmpty => again acc
+          | OVal _ => again o
+          end
+        | r => r
+        end in
+      match body with
+      | [] => match poll s' with (s'', Some x) => (s'', L, OExn x) | (s'', None) => go s'' end
+      | _ => go s'
+      end in
+    match test with
+    | Some e => match eval s0 e with
+                | (s', inr x) => (s', L, OExn x)
+                | (s', inl v) => if truthy v then run_body s' else (s', L, ONorm acc)
+                end
+    | None => run_body s0
+    end
+  end.
+
 Definition oblock (s0 : st) (L : list label) (l : list stmt) : st * list label * ores :=
   match olist s0 [] OEmpty l with
   | (s1, L1, ONorm (OBrk t)) => if mem t L then (s1, L1, ONorm OEmpty) else (s1, L1, ONorm (OBrk t))
@@ -149,6 +217,21 @@ Fixpoint exec_o (fuel : nat) (s0 : st) (L : list label) (s : stmt) {struct fuel}
         | (s', inr x) => (s', L, OExn x)
         end
     | SWhile e body => owhile (exec_o fuel) fuel (L ++ [0]) e body s0 [] OEmpty
+    | SDoWhile body e => odowhile (exec_o fuel) fuel (L ++ [0]) e body s0 [] OEmpty
+    | SFor init test upd body =>
+        (* the parser always wraps the initialiser in a (possibly empty) sequence expression node,
+           whose evaluation is one more polling point; rt.labels has been reset by then *)
+        match poll s0 with
+        | (sq, Some x) => (sq, [], OExn x)
+        | (sq, None) =>
+          match init with
+          | Some i => match eval sq i with
+                      | (s1, inl _) => ofor (exec_o fuel) fuel (L ++ [0]) test upd body s1 [] OEmpty
+                      | (s1, inr x) => (s1, [], OExn x)
+                      end
+          | None => ofor (exec_o fuel) fuel (L ++ [0]) test upd body sq [] OEmpty
+          end
+        end
     | SBreak t => (s0, L, ONorm (OBrk t))
     | SContinue t => (s0, L, ONorm (OCont t))
     | SReturn e =>
@@ -207,6 +290,63 @@ Fixpoint swhile (n : nat) (labels : list label) (e : expr) (body : list stmt) (s
       else (s', SDone CNormal)
     end
   end.
+Fixpoint sdowhile (n : nat) (labels : list label) (e : expr) (body : list stmt) (s0 : st) : st * sres :=
+  match n with
+  | O => (s0, SFuel)
+  | S n =>
+    match slist s0 body with
+    | (s1, SDone c) =>
+      let again :=
+        match eval s1 e with
+        | (s', inr x) => (s', SDone (CThrow x))
+        | (s', inl v) => if truthy v then sdowhile n labels e body s' else (s', SDone CNormal)
+        end in
+      match c with
+      | CBreak t => if mem t labels then (s1, SDone CNormal) else (s1, SDone c)
+      | CContinue t => if mem t labels then again else (s1, SDone c)
+      | CNormal => again
+      | _ => (s1, SDone c)
+      end
+    | r => r
+    end
+  end.
+
+Fixpoint sfor (n : nat) (labels : list label) (test upd : option expr) (body : list stmt) (s0 : st) : st * sres :=
+  match n with
+  | O => (s0, SFuel)
+  | S n =>
+    let run_body (s' : st) :=
+      let go (s'' : st) :=
+        match slist s'' body with
+        | (s1, SDone c) =>
+          let again :=
+            match upd with
+            | Some u => match eval s1 u with
+                        | (s2, inl _) => sfor n labels test upd body s2
+                        | (s2, inr x) => (s2, SDone (CThrow x))
+                        end
+            | None => sfor n labels test upd body s1
+            end in
+          match c with
+          | CBreak t => if mem t labels then (s1, SDone CNormal) else (s1, SDone c)
+          | CContinue t => if mem t labels then again else (s1, SDone c)
+          | CNormal => again
+          | _ => (s1, SDone c)
+          end
+        | r => r
+        end in
+      match body with
+      | [] => match poll s' with (s'', Some x) => (s'', SDone (CThrow x)) | (s'', None) => go s'' end
+      | _ => go s'
+      end in
+    match test with
+    | Some e => match eval s0 e with
+                | (s', inr x) => (s', SDone (CThrow x))
+                | (s', inl v) => if truthy v then run_body s' else (s', SDone CNormal)
+                end
+    | None => run_body s0
+    end
+  end.
 End SpecIter.
 
 Definition scatch (blk : st -> list stmt -> st * sres) (r1 : st * sres) (c : option (list stmt)) : st * sres :=
@@ -258,6 +398,19 @@ Fixpoint exec_s (fuel : nat) (s0 : st) (LS : list label) (s : stmt) {struct fuel
         | (s', inr x) => (s', SDone (CThrow x))
         end
     | SWhile e body => swhile (exec_s fuel) fuel (LS ++ [0]) e body s0
+    | SDoWhile body e => sdowhile (exec_s fuel) fuel (LS ++ [0]) e body s0
+    | SFor init test upd body =>
+        match poll s0 with
+        | (sq, Some x) => (sq, SDone (CThrow x))
+        | (sq, None) =>
+          match init with
+          | Some i => match eval sq i with
+                      | (s1, inl _) => sfor (exec_s fuel) fuel (LS ++ [0]) test upd body s1
+                      | (s1, inr x) => (s1, SDone (CThrow x))
+                      end
+          | None => sfor (exec_s fuel) fuel (LS ++ [0]) test upd body sq
+          end
+        end
     | SBreak t => (s0, SDone (CBreak t))
     | SContinue t => (s0, SDone (CContinue t))
     | SReturn e =>
@@ -283,7 +436,7 @@ Fixpoint exec_s (fuel : nat) (s0 : st) (LS : list label) (s : stmt) {struct fuel
 
 End Sem.
 Arguments exec_o {st val expr}. Arguments exec_s {st val expr}.
-Arguments olist {st val expr}. Arguments owhile {st val expr}. Arguments oblock {st val expr}.
+Arguments olist {st val expr}. Arguments owhile {st val expr}. Arguments odowhile {st val expr}. Arguments ofor {st val expr}. Arguments sdowhile {st val expr}. Arguments sfor {st val expr}. Arguments oblock {st val expr}.
 Arguments slist {st val expr}. Arguments ocatch {st val expr}. Arguments ofinally {st val expr}. Arguments scatch {st val expr}. Arguments sfinally {st val expr}. Arguments swhile {st val expr}.
 Arguments is_res {val}.
 Arguments opolled {st val expr}. Arguments spolled {st val expr}.
